@@ -86,3 +86,79 @@ Print Assumptions C02_exactly_once_translated.
 Print Assumptions C02_exactly_once.
 Print Assumptions C02_frontier_nodup.
 Print Assumptions C02_binary64.
+
+(* ---- third tie to the source: gen/Queue_gen.v is the translation of the Python text of the
+   priority-queue OBJECT (lib_guesser/priority_queue.py: QueueItem's comparison methods,
+   PcfgQueue.__init__ / next / insert_queue; harness/translate_queue.py, redone on every run).
+   heapq is not translated: push / pop are arbitrary functions meeting its contract for the
+   translated __lt__.  up / un / ui: the undefined values; flit: the meaning of a float literal;
+   fuel: only used by a restored session. ---- *)
+From Coq Require Import NArith.
+From Pcfg Require Import QueueRt QueueModel QueueProofs QueueGenProofs.
+From PcfgGen Require Import Queue_gen.
+
+Theorem C02_source_next_is_model :
+  forall (A : palg) (up : P A) (un : var * nat) (ui : item A) (push : heap A -> item A -> heap A)
+         (pop : heap A -> option (item A * heap A)) (rs : ruleset A) (q : pcfg_queue A),
+  (forall h, pop h = None <-> h = nil) ->
+  py_PcfgQueue_next up un ui push pop rs q = q_next push pop (py_find_children up un rs) q.
+Proof. exact (fun A up un ui push pop rs q => queue_next_eq up un ui push pop rs q). Qed.
+
+(* ... and, on a heap of pre-terminals of a well-formed grammar, over the model's find_children *)
+Theorem C02_translated_next_is_model :
+  forall (A : palg) (up : P A) (un : var * nat) (ui : item A) (rs : ruleset A), wf rs ->
+  forall (push : heap A -> item A -> heap A) (pop : heap A -> option (item A * heap A)) (q : pcfg_queue A),
+  pop_ok_okb pop -> (forall x, In x (p_queue q) -> In x (all_preterminals rs)) ->
+  py_PcfgQueue_next up un ui push pop rs q = q_next push pop (find_children rs) q.
+Proof.
+  exact (fun A up un ui rs H push pop q Hpop Hq =>
+           queue_next_model up un ui rs H push pop q Hpop (fun x Hx => proj1 (In_all_preterminals rs x) (Hq x Hx))).
+Qed.
+
+Theorem C02_source_insert_queue_is_model :
+  forall (A : palg) (push : heap A -> item A -> heap A) (q : pcfg_queue A) (x : item A),
+  py_PcfgQueue_insert_queue push q x = set_p_queue q (push (p_queue q) x).
+Proof. exact (fun A push q x => queue_insert_eq push q x). Qed.
+
+Theorem C02_source_queue_init_is_model :
+  forall (A : palg) (up : P A) (un : var * nat) (flit : float -> P A) (rs : ruleset A), wf rs ->
+  forall (push : heap A -> item A -> heap A) (fuel : nat),
+  py_PcfgQueue_init up un flit push fuel rs None = q_start push (flit 1%float) (flit 0%float) 50000%N rs.
+Proof. exact (fun A up un flit rs H push fuel => queue_init_new_model up un flit rs H push fuel). Qed.
+
+(* C02 for a session over the translated object: PcfgQueue(pcfg), total rs calls of next return every
+   pre-terminal exactly once, the heap is then empty and next returns None *)
+Theorem C02_exactly_once_queue_translated :
+  forall (A : palg) (up : P A) (un : var * nat) (ui : item A) (flit : float -> P A) (rs : ruleset A), wf rs ->
+  forall (push : heap A -> item A -> heap A) (pop : heap A -> option (item A * heap A)),
+  push_ok push -> heap_ok py_QueueItem_lt pop -> forall fuel : nat,
+  let s := py_session up un ui flit push pop fuel rs None (total rs) in
+  Permutation (fst s) (all_preterminals rs) /\ p_queue (snd s) = nil /\
+  fst (py_PcfgQueue_next up un ui push pop rs (snd s)) = None.
+Proof.
+  exact (fun A up un ui flit rs H push pop Hpush Hpop fuel =>
+           queue_exactly_once up un ui flit rs H push pop Hpush (proj1 (queue_heap_contract pop) Hpop) fuel).
+Qed.
+
+(* every intermediate state: nothing is held twice (returned or in the heap), no early exhaustion *)
+Theorem C02_frontier_nodup_queue_translated :
+  forall (A : palg) (up : P A) (un : var * nat) (ui : item A) (flit : float -> P A) (rs : ruleset A), wf rs ->
+  forall (push : heap A -> item A -> heap A) (pop : heap A -> option (item A * heap A)),
+  push_ok push -> heap_ok py_QueueItem_lt pop -> forall fuel n : nat,
+  let s := py_session up un ui flit push pop fuel rs None n in
+  NoDup (fst s ++ p_queue (snd s)) /\ (n <= total rs -> length (fst s) = n).
+Proof.
+  exact (fun A up un ui flit rs H push pop Hpush Hpop fuel n =>
+           queue_frontier_nodup up un ui flit rs H push pop Hpush (proj1 (queue_heap_contract pop) Hpop) fuel n).
+Qed.
+
+Theorem C02_queue_hypotheses_satisfiable :
+  wf demo_rs /\ push_ok (@list_push F64) /\ heap_ok py_QueueItem_lt (@pop_first_max F64) /\
+  length (fst (demo_session None 44)) = 44.
+Proof.
+  exact (conj demo_wf (conj list_push_ok (conj (proj2 (queue_heap_contract _) pop_first_max_ok_partial)
+          (proj1 (proj2 (proj2 (proj2 (proj2 queue_hypotheses_satisfiable)))))))).
+Qed.
+
+Print Assumptions C02_exactly_once_queue_translated.
+Print Assumptions C02_frontier_nodup_queue_translated.
